@@ -652,7 +652,8 @@ def stage_program_interrupt(ctx, dis, nconf, nper):
         models = {}
         if use_model:
             try:
-                models = drv.run_model([("p%s_%d" % (i, rep), cfg, i, rep, nsetup) for i, rep in plan])
+                mcfg = drv.with_oracle(cfg, un)
+                models = drv.run_model([("p%s_%d" % (i, rep), mcfg, i, rep, nsetup) for i, rep in plan])
             except Exception as e:
                 ctx.notes.append("driver model failed: %s" % str(e)[-200:])
         for i, rep in plan:
